@@ -421,3 +421,95 @@ Definition hist_step_check (s : hist_step) : bool :=
 Definition hist_check (l : list hist_step) : bool := forallb hist_step_check l.
 (* which calls of the history agree with the spec *)
 Definition hist_explain (l : list hist_step) : list bool := map hist_step_check l.
+
+(* -------- count boundaries: ONE call on a batch of n rows (n around 256, 1024, 4096, 65536), the rows drawn from 2 .. 4 distinct
+   keys and given run-length encoded; a selection of the rows of the result (first / last occurrence of every key, the rows
+   around the powers of two, the last three, a sample) is compared here with the spec and the model of the row's key; the
+   harness compares the whole array with these validated rows. *)
+Inductive cnt_fn :=
+  | CntKs (klen : nat)                                  (* aes.key_schedule *)
+  | CntKe (klen col_in : nat) (col_out : option nat)    (* aes.key_expansion on windows *)
+  | CntInv (round : option nat)                         (* aes.inv_key_schedule on round keys *)
+  | CntDk (last : option nat).                          (* des.key_schedule *)
+
+Record cnt_case := {
+  cn_fn : cnt_fn;
+  cn_keys : list packed;        (* the distinct master keys *)
+  cn_inputs : list packed;      (* what is handed to the code for each distinct key (the key, its window, its round key) *)
+  cn_runs : list (nat * N);     (* (index of the distinct key, number of consecutive rows) *)
+  cn_shape : list N;            (* shape of the returned array *)
+  cn_rows : list (N * packed)   (* (row number, the bytes of that row of the result) *)
+}.
+
+Fixpoint run_row (runs : list (nat * N)) (i : N) : option nat :=
+  match runs with
+  | [] => None
+  | (k, c) :: t => if i <? c then Some k else run_row t (i - c)
+  end.
+Definition runs_total (runs : list (nat * N)) : N := fold_right (fun r acc => snd r + acc) 0 runs.
+
+Definition opt_concat (o : option (list (list N))) : option (list N) :=
+  match o with Some l => Some (concat l) | None => None end.
+
+(* for one distinct key: (width of the input, the input the spec expects, the row the spec expects, the row of the model) *)
+Definition cnt_one (f : cnt_fn) (master input : packed) : nat * list N * list N * option (list N) :=
+  match f with
+  | CntKs klen =>
+    let key := unpack klen master in
+    (klen, key, concat (round_keys (klen / 4) key), opt_concat (key_schedule_m (unpack klen input)))
+  | CntKe klen ci co =>
+    let sp := aes_ke_spec klen ci co master in
+    (klen, fst sp, snd sp, key_expansion_m (unpack klen input) ci co)
+  | CntInv r =>
+    let sched := round_keys 4 (unpack 16 master) in
+    let rr := match r with Some x => x | None => 10%nat end in
+    (16%nat, nth rr sched [], concat sched, opt_concat (inv_key_schedule_m (unpack 16 input) r))
+  | CntDk l =>
+    let key := unpack 8 master in
+    let ll := match l with Some x => x | None => 15%nat end in
+    (8%nat, key, concat (firstn (S ll) (des_ks_spec key)), opt_concat (des_ks_m (unpack 8 input) l))
+  end.
+
+Definition cnt_params_ok (f : cnt_fn) : bool :=
+  match f with
+  | CntKs klen => nk_ok (klen / 4) && (klen =? 4 * (klen / 4))%nat
+  | CntKe klen ci co =>
+    let Nk := (klen / 4)%nat in
+    let T := total_words Nk in
+    nk_ok Nk && (klen =? 4 * Nk)%nat && (ci + Nk <=? T)%nat && (match co with Some c => c | None => T end <=? T)%nat
+  | CntInv r => (match r with Some x => x | None => 10%nat end <=? 10)%nat
+  | CntDk l => (match l with Some x => x | None => 15%nat end <=? 15)%nat
+  end.
+
+Definition cnt_shape (f : cnt_fn) (n : N) : list N :=
+  match f with
+  | CntKs klen => [n; N.of_nat (klen / 4 + 7); 16]
+  | CntKe klen ci co =>
+    let Nk := (klen / 4)%nat in
+    let c := match co with Some c => c | None => total_words Nk end in
+    [n; N.of_nat (if (ci <? c)%nat then 4 * (c - ci) else 4 * (ci + Nk - c))]
+  | CntInv _ => [n; 11; 16]
+  | CntDk l => [n; N.of_nat (S (match l with Some x => x | None => 15%nat end)); 8]
+  end.
+
+Definition cnt_expected (c : cnt_case) : list (list N) :=
+  map (fun p => snd (fst (cnt_one (cn_fn c) (fst p) (snd p)))) (combine (cn_keys c) (cn_inputs c)).
+
+Definition cnt_check (c : cnt_case) : bool :=
+  let f := cn_fn c in
+  let n := runs_total (cn_runs c) in
+  let per_key := map (fun p => cnt_one f (fst p) (snd p)) (combine (cn_keys c) (cn_inputs c)) in
+  cnt_params_ok f
+  && (length (cn_keys c) =? length (cn_inputs c))%nat && (1 <? n)
+  && forallb (fun r => (fst r <? length (cn_keys c))%nat) (cn_runs c)
+  && nlist_eqb (cnt_shape f n) (cn_shape c)
+  && negb (length (cn_rows c) =? 0)%nat
+  && forallb (fun t => let '(w, inp, _, _) := fst t in nlist_eqb (unpack w (snd t)) inp) (combine per_key (cn_inputs c))
+  && forallb (fun x => match run_row (cn_runs c) (fst x) with
+                       | Some k => match nth_error per_key k with
+                                   | Some (_, _, row, model) =>
+                                     nlist_eqb row (snd x) && match model with Some m => nlist_eqb m (snd x) | None => false end
+                                   | None => false
+                                   end
+                       | None => false
+                       end) (cn_rows c).
